@@ -85,7 +85,7 @@ var propC01 = &modelProp{
 	id: "C01",
 	profile: func() *Profile {
 		return &Profile{
-			Property: "C01", MaxOps: pick(12, 30), W: crudWeights(),
+			Property: "C01", WordShiftPct: 10, MaxOps: pick(12, 30), W: crudWeights(),
 			AllowAsync: true, AllowCache: true, AllowCompress: true, AllowLower: true,
 			MaxIndexed: 4, MaxUnique: 2, CasePaths: 1,
 			TinyBias: 45, BigBias: 15, HookBias: 15, RichShape: 35, MaxLeaves: 2,
